@@ -243,6 +243,7 @@ func (sc *scen) harness(props map[string]bool, out *[]violation) func() *sched.H
 				r.st = st
 				// from here on the service parks at seams and offers outcomes
 				r.svc.Seams = true
+				r.cache.Seams = true
 				if sc.Outcomes != nil || sc.OutcomesFor != nil {
 					r.svc.Outcomes = func(name string) []string {
 						if o, ok := sc.OutcomesFor[name]; ok {
@@ -337,6 +338,10 @@ func (sc *scen) harness(props map[string]bool, out *[]violation) func() *sched.H
 				// let every poll round and lookup still in flight finish first: a Refresh that joins a round
 				// begun earlier legitimately shares that round's (older) answers
 				synctest.Wait()
+				r.cache.Seams = false
+				if r.st != nil && x.Stuck == "" && x.Violation == nil {
+					r.checkCacheInSync("at quiescence after the scenario")
+				}
 				if r.st != nil && !r.closed && x.Stuck == "" && x.Violation == nil {
 					// final convergence: one more poll with a healthy service
 					done := make(chan error, 1)
@@ -504,6 +509,29 @@ func (r *run) act(tn string, ctx context.Context, a string) {
 		r.mu.Lock()
 		r.closed = true
 		r.mu.Unlock()
+	}
+}
+
+// checkCacheInSync: whenever nothing is in flight, the cache document holds every known secret's version and bytes (C13).
+func (r *run) checkCacheInSync(when string) {
+	if len(r.cache.Writes) == 0 {
+		return // nothing was installed since start-up
+	}
+	doc, err := parseCache(r.cache.Data)
+	if err != nil {
+		r.fail("C13", "cache-unparsable", "%s: cache document does not parse: %v", when, err)
+		return
+	}
+	for n, g := range r.st.VerifDump() {
+		if g.Nil {
+			continue
+		}
+		c := doc[n]
+		if c == nil || c.Secret == nil {
+			r.fail("C13", "cache-missing", "%s: the cache lacks %q, which the store serves at v%d", when, n, g.Version)
+		} else if c.Secret.Version != g.Version || string(c.Secret.Value) != g.Value {
+			r.fail("C13", "cache-stale", "%s: the cache holds %q at v%d while the store serves v%d (a restart with the service unreachable would serve the old value)", when, n, c.Secret.Version, g.Version)
+		}
 	}
 }
 
